@@ -53,6 +53,44 @@ def off(t):
     return (const, tuple(sorted((term_str(k), v) for k, v in syms.items())))
 
 
+def _add(a, b):
+    if a == ('const', 0):
+        return b
+    if b == ('const', 0):
+        return a
+    if a[0] == 'const' and b[0] == 'const':
+        return ('const', a[1] + b[1])
+    return ('Add', a, b)
+
+
+def resolve_slice(t, is_buf):
+    """(start, end) of the slice denoted by t inside the buffer (is_buf), through nested sub-slicing: index/index_mut/get/get_mut
+    with a range, split_at/split_at_mut halves, `?`/unwrap/Some-payload wrappers. end None = to the end of the buffer. None if t
+    is not a part of the buffer."""
+    from .rules import _strip_wrappers
+    t = peel(t)
+    ic = index_call(t)
+    if ic is not None:
+        r = resolve_slice(ic[0], is_buf)
+        if r is not None:
+            s, e, _ = ic[1]
+            return _add(r[0], s), (_add(r[0], e) if e is not None else r[1])
+    if isinstance(t, tuple) and len(t) == 3 and t[0] == 'field' and t[2] in ('0', '1') and isinstance(t[1], tuple) and t[1][:1] == ('call',) \
+            and isinstance(t[1][1], str) and t[1][1].endswith(('::split_at_mut', '::split_at')) and len(t[1][2]) == 2:
+        r = resolve_slice(t[1][2][0], is_buf)
+        if r is not None:
+            mid = _add(r[0], t[1][2][1])
+            return (r[0], mid) if t[2] == '0' else (mid, r[1])
+    w = _strip_wrappers(t)
+    if w != t:
+        r = resolve_slice(w, is_buf)
+        if r is not None:
+            return r
+    if is_buf(t):
+        return ('const', 0), None
+    return None
+
+
 class Write:
     __slots__ = ('kind', 'start', 'end', 'value', 'bb', 'si', 'conds', 'callee')
 
@@ -92,38 +130,31 @@ def buffer_script(bf, is_buf):
             if s.k != 'assign' or not s.lhs.proj:
                 continue
             lt = term_of_place(bf, s.lhs)
-            if lt[0] == 'index' and is_buf(peel(lt[1])):
-                v = rv_term(bf, s.rv)
-                out.append(Write('byte', lt[2], None, v, bb, si))
-            elif lt[0] == 'cindex' and is_buf(peel(lt[1])):
-                v = rv_term(bf, s.rv)
-                out.append(Write('byte', ('const', lt[2]), None, v, bb, si))
-            elif lt[0] == 'index':
-                # element of a sub-slice obtained by index_mut(buf, a..b): offset a + i
-                ic = index_call(lt[1])
-                if ic is not None and is_buf(ic[0]):
+            if lt[0] in ('index', 'cindex'):
+                # element of the buffer or of a sub-slice of it (index_mut(buf, a..b), split_at_mut halves, ...): offset a + i
+                r = resolve_slice(lt[1], is_buf)
+                if r is not None:
                     v = rv_term(bf, s.rv)
-                    out.append(Write('byte', ('Add', ic[1][0], lt[2]), None, v, bb, si))
+                    out.append(Write('byte', _add(r[0], lt[2] if lt[0] == 'index' else ('const', lt[2])), None, v, bb, si))
         t = b.term
         if t.k != 'call':
             continue
         cn = callee_name(t) or ''
         args = [term_of_operand(bf, a) for a in t.args]
         if cn.endswith('copy_from_slice') or cn.endswith('clone_from_slice'):
-            dst = peel(args[0])
-            ic = index_call(dst)
-            if ic is not None and is_buf(ic[0]):
-                out.append(Write('range', ic[1][0], ic[1][1], args[1], bb))
-            elif is_buf(dst):
-                out.append(Write('range', ('const', 0), None, args[1], bb))
+            r = resolve_slice(args[0], is_buf)
+            if r is not None:
+                out.append(Write('range', r[0], r[1], args[1], bb))
             continue
-        if cn.endswith('Index::index') or cn.endswith('IndexMut::index_mut'):
+        if cn.endswith(('Index::index', 'IndexMut::index_mut', '::split_at_mut', '::split_at', '::get_mut', '::get')):
             continue
         for i, a in enumerate(t.args):
             ty = a.ty or ''
-            if ty.startswith('&mut ') and (is_buf(peel(args[i])) or (index_call(args[i]) and is_buf(index_call(args[i])[0]))):
-                ic = index_call(args[i])
-                out.append(Write('call', ic[1][0] if ic else None, ic[1][1] if ic else None, tuple(args), bb, callee=cn))
+            if ty.startswith('&mut '):
+                r = resolve_slice(args[i], is_buf)
+                if r is not None:
+                    whole = r == (('const', 0), None) and index_call(args[i]) is None
+                    out.append(Write('call', None if whole else r[0], None if whole else r[1], tuple(args), bb, callee=cn))
     return out
 
 
@@ -131,6 +162,7 @@ def reads_of(bf, is_buf):
     """byte ranges of the buffer an accessor reads: list of ('byte', off) / ('range', start, end)"""
     out = []
     seen = set()
+    keep = []
 
     def visit(t):
         if not isinstance(t, tuple):
@@ -139,6 +171,7 @@ def reads_of(bf, is_buf):
         if key in seen:
             return
         seen.add(key)
+        keep.append(t)      # keep the term alive: ids of freed tuples are reused
         if t and t[0] in ('index',) and is_buf(peel(t[1])):
             out.append(('byte', off(t[2])))
         elif t and t[0] == 'cindex' and is_buf(peel(t[1])):
